@@ -566,6 +566,9 @@ pub mod offset;
 #[cfg(feature = "clock")]
 #[doc(inline)]
 pub use offset::Local;
+#[cfg(all(unix, feature = "verif-hooks"))]
+#[doc(hidden)]
+pub use offset::local::__verif;
 #[doc(hidden)]
 pub use offset::LocalResult;
 pub use offset::MappedLocalTime;
